@@ -863,7 +863,7 @@ class Interp:
             out.append(PathResult(s, ret, s.cut))
         return out
 
-    def call_body(self, body, args, st, depth):
+    def call_body(self, body, args, st, depth, rust_call=False):
         """generator of (state, return value)"""
         if depth > self.max_depth:
             st2 = st.fork()
@@ -874,12 +874,13 @@ class Interp:
         # arguments
         nargs = body.arg_count
         vals = list(args)
-        if body.kind in ("closure", "coroutine") and len(vals) == 2 and nargs != 2 and isinstance(vals[1], TupleV):
+        if rust_call and body.kind in ("closure", "coroutine") and len(vals) == 2:
             # rust-call ABI: (closure, (a, b, ..)) -> closure, a, b, ..
-            vals = [vals[0]] + list(vals[1].items)
-        elif body.kind in ("closure",) and len(vals) == 2 and nargs > 2:
             t = vals[1]
-            vals = [vals[0]] + [("field", tform(t), str(i)) for i in range(nargs - 1)]
+            if isinstance(t, TupleV):
+                vals = [vals[0]] + list(t.items)
+            elif nargs >= 2:
+                vals = [vals[0]] + [("field", tform(t), str(i)) for i in range(nargs - 1)]
         for i in range(nargs):
             v = vals[i] if i < len(vals) else TOP
             st.mem[("L", frame, i + 1)] = v
@@ -1057,6 +1058,11 @@ class Interp:
         # 1. models
         for nm in names[::-1] + names:
             m = self.models.get(nm)
+            if m is None:
+                for suf, fn in SUFFIX_MODELS:
+                    if nm.endswith(suf):
+                        m = fn
+                        break
             if m is not None:
                 results = m(self, st, t, args, site, depth)
                 if results is not None:
@@ -1078,7 +1084,8 @@ class Interp:
                 results = []
                 self.ctx.append(target.path)
                 try:
-                    for s2, ret in self.call_body(target, args, st.fork(), depth + 1):
+                    rc = target.kind in ("closure", "coroutine") and (c.trait or "").startswith("std::ops::Fn")
+                    for s2, ret in self.call_body(target, args, st.fork(), depth + 1, rust_call=rc):
                         if s2.cut:
                             results.append((s2, ("cut",)))
                         else:
@@ -1124,7 +1131,7 @@ class Interp:
             if b is not None:
                 self.ctx.append(b.path if label is None else label + "|" + b.path)
                 try:
-                    return [(s, r) for s, r in self.call_body(b, [fval, TupleV(argvals)], st.fork(), depth + 1)]
+                    return [(s, r) for s, r in self.call_body(b, [fval] + list(argvals), st.fork(), depth + 1)]
                 finally:
                     self.ctx.pop()
         if isinstance(fval, Ref):
@@ -1135,7 +1142,7 @@ class Interp:
                 if b is not None:
                     self.ctx.append(b.path if label is None else label + "|" + b.path)
                     try:
-                        return [(s, r) for s, r in self.call_body(b, [fval, TupleV(argvals)], st.fork(), depth + 1)]
+                        return [(s, r) for s, r in self.call_body(b, [fval] + list(argvals), st.fork(), depth + 1)]
                     finally:
                         self.ctx.pop()
         if isinstance(fval, tuple) and fval and fval[0] == "fn":
@@ -1411,7 +1418,12 @@ def m_from_u8(I, st, t, args, site, depth):
     if not self_ty:
         return None
     for meth in ("from_i64", "from_u64"):
-        p = I.facts.impl_method(self_ty, "num_traits::FromPrimitive", meth)
+        p = None
+        for i in I.facts.impls:
+            if i["self"] == self_ty and (i.get("trait") or "").endswith("FromPrimitive"):
+                for it in i["items"]:
+                    if it["name"] == meth:
+                        p = it["path"]
         if p and p in I.facts.bodies:
             b = I.facts.bodies[p]
             I.ctx.append(b.path)
@@ -1474,6 +1486,11 @@ DEFAULT_MODELS = {
     "core::panicking::panic_explicit": m_panic,
 }
 DEFAULT_MODELS = {k: v for k, v in DEFAULT_MODELS.items() if v is not None}
+SUFFIX_MODELS = [
+    ("FromPrimitive::from_u8", m_from_u8),
+    ("FromPrimitive::from_u16", m_from_u8),
+    ("FromPrimitive::from_u32", m_from_u8),
+]
 
 
 # ---------------------------------------------------------------- term utilities
